@@ -114,7 +114,7 @@ def noisy_per_example_loss(params, batch, rng):
 
 def complete(i):
   """Fills the optional fields of an instance (Mime server rate; key-dependent loss term: zero when the loss ignores its key)."""
-  return dict(i, mime_slr=i.get('mime_slr', R(1)), noise=i.get('noise', [[[0] * max(1, len(s)) for s in i['stream']] for _ in range(i['rounds'])]))
+  return dict(i, reg=i.get('reg', R(0)), mime_slr=i.get('mime_slr', R(1)), noise=i.get('noise', [[[0] * max(1, len(s)) for s in i['stream']] for _ in range(i['rounds'])]))
 
 
 def oracle(ctx, instances, tag, module='FedRoundOracle', extra_consts=None):
@@ -204,6 +204,7 @@ def within_island(inst, bound=1 << 13):
     return [chk(pi - lr * ti) for pi, ti in zip(p, t)], t
 
   mu = frac(inst['mu'])
+  lam = frac(inst['reg']) if 'reg' in inst else F(0)
   params = [frac(x) for x in inst['init']]
   sstate = [F(0)] * len(params)
   L = len(params)
@@ -213,7 +214,7 @@ def within_island(inst, bound=1 << 13):
       w, s = list(params), [F(0)] * L
       for bi, batch in enumerate(inst['stream'][c - 1]):
         eta = inst['noise'][ri][c - 1][bi] if 'noise' in inst else 0
-        g = [chk(w[l] - F(sum(inst['data'][c - 1][i - 1][l] for i in batch), len(batch)) + eta + mu * (w[l] - params[l])) for l in range(L)]
+        g = [chk(w[l] - F(sum(inst['data'][c - 1][i - 1][l] for i in batch), len(batch)) + eta + mu * (w[l] - params[l]) + lam * w[l]) for l in range(L)]
         w, s = opt_apply(inst['copt'], g, s, w)
       n = len(inst['data'][c - 1])
       acc = [chk(a + n * (p - x)) for a, p, x in zip(acc, params, w)]
